@@ -152,6 +152,7 @@ struct Run {
     Side s[2];
     Dir d[2]; // d[i] = data sent by side i (to side 1-i)
     bool trunc_then_recv = false;
+    int graceful_closer = -1; // side that closed after xcm_finish had returned 0 with nothing unread
     uint64_t refused_sends = 0, refused_pending = 0, failed_sends_nontrivial = 0;
     uint64_t partial_accepts = 0;
     int eintr_next = 0;
@@ -552,6 +553,41 @@ struct Run {
         return Outcome::pass();
     }
 
+    // The textbook orderly shutdown: everything the peer sent has been received, xcm_finish has
+    // returned 0, then xcm_close.  What this side had successfully sent must then all arrive.
+    // Returns false (nothing done) when the situation does not allow a clean judgement.
+    bool graceful_close(int i, Outcome &o)
+    {
+        Side &sd = s[i], &peer = s[1 - i];
+        if (sd.ep.closed || peer.ep.closed || sd.failed || peer.failed || sd.ep.blocking || peer.ep.blocking) return false;
+        if (sd.fault_injected || peer.fault_injected) return false;
+        // a TLS client may still have the server's session tickets unread: closing then resets
+        if (uses_tls(tp) && i == 0) return false;
+        sh_clear(sd.ep.tag);
+        sh_clear(peer.ep.tag);
+        // 1. the other direction is delivered completely, and this side's receive queue is empty
+        for (int k = 0; k < 4000 && o.ok && !all_delivered(1 - i); k++) { o = do_finish(1 - i); if (o.ok) o = do_recv(i, 70000); if (!all_delivered(1 - i)) usleep(100); }
+        if (!o.ok || !all_delivered(1 - i) || sd.failed || peer.failed) return false;
+        // 2. this side's socket finishes its outstanding work (the peer keeps reading meanwhile)
+        bool finished = false;
+        for (int k = 0; k < 8000 && o.ok && !finished; k++) {
+            int rc = x_finish(sd.ep);
+            if (rc == 0) { finished = true; break; }
+            if (errno != EAGAIN) return false;
+            o = do_recv(1 - i, 70000);
+            usleep(100);
+        }
+        if (!o.ok || !finished || peer.failed) return false;
+        bool got = false;
+        o = do_recv(i, 70000, &got);
+        if (!o.ok || got || sd.failed) return false;
+        c.log("%s: everything received, xcm_finish == 0: close", sd.name);
+        c.cls("close-after-finish-succeeded");
+        x_close(sd.ep);
+        graceful_closer = i;
+        return true;
+    }
+
     void push_script(int i, Dec &dd)
     {
         Side &sd = s[i];
@@ -772,7 +808,7 @@ public:
                 o = r.do_finish(side);
             } else if (k < 92) {
                 if (!r.s[side].ep.closed) r.push_script(side, d);
-            } else if (k < 98) {
+            } else if (k < 96) {
                 Side &sd = r.s[side];
                 if (!sd.ep.closed && !sd.ep.blocking) {
                     static const int CONDS[] = {0, XCM_SO_RECEIVABLE, XCM_SO_SENDABLE, XCM_SO_RECEIVABLE | XCM_SO_SENDABLE};
@@ -785,7 +821,9 @@ public:
                 }
             } else if (k < 99 && stepno > p.steps.size() / 2) {
                 Side &sd = r.s[side];
-                if (!sd.ep.closed) {
+                uint32_t g = d.raw();
+                if (g % 2 == 1 && r.graceful_close(side, o)) break; // nothing more is sent once a side has left in good order
+                if (o.ok && !sd.ep.closed) {
                     c.log("%s close", sd.name);
                     c.cls("early-close");
                     x_close(sd.ep);
@@ -899,6 +937,12 @@ public:
                     pf[n++] = {r.s[i].ep.fd, POLLIN, 0};
                 }
             poll(pf, n, idle < 10 ? 1 : 15);
+        }
+        if (r.graceful_closer >= 0) {
+            int gi = r.graceful_closer;
+            VF_CHECK(r.all_delivered(gi),
+                     "C03: %s had received everything, let its socket finish (xcm_finish returned 0) and closed, yet %zu message(s)/%zu byte(s) it had successfully sent never arrived at %s",
+                     r.s[gi].name, r.bs ? (size_t)0 : r.d[gi].msgs.size() - r.d[gi].delivered, r.bs ? r.d[gi].bytes.size() - r.d[gi].off : (size_t)0, r.s[1 - gi].name);
         }
         if (both_alive && r.check_counters()) {
             // quiescent: sender to_lower == receiver from_lower == ledger
